@@ -490,7 +490,10 @@ pub fn build(m: &Model) -> Vec<u8> {
         MapsM::None => {}
         MapsM::Info(rs) => {
             for &(b, s, prot) in rs {
-                d = d.add_memory_info(synth::MemoryInfo::new(e, b, b, prot, s, 0x1000, prot, 0x20000));
+                // the protection the region was ALLOCATED with differs from the one it has now (what counts):
+                // PAGE_READWRITE, or PAGE_READONLY for a region that is PAGE_READWRITE now
+                let alloc_prot = if prot == 0x04 { 0x02 } else { 0x04 };
+                d = d.add_memory_info(synth::MemoryInfo::new(e, b, b, alloc_prot, s, 0x1000, prot, 0x20000));
             }
         }
         MapsM::Linux(rs) => {
